@@ -503,6 +503,29 @@ def binding_origins(fn):
     return out
 
 
+def resolve_place(n, origins, depth=0):
+    """(root lid, [field path]) of a place expression, looking through locals that were bound by destructuring a
+    struct (`let S { a, b } = x;` makes `a` mean `x.a`) or by a plain `let y = x.f;`"""
+    lid, path = place_root_lid(n)
+    fields = [p for p in path]
+    while lid is not None and lid in origins and depth < 6:
+        chain, scrut = origins[lid]
+        if scrut is None:
+            break
+        names = [f for d, f in chain if isinstance(f, str)]
+        if len(names) != len(chain):
+            break        # tuple / enum payload positions are not field paths
+        l2, p2 = place_root_lid(scrut)
+        if l2 is None or l2 == lid:
+            break
+        if any(x.startswith(".") and x not in (".clone()", ".as_ref()", ".borrow()", ".iter()", ".into_iter()") for x in p2):
+            break        # bound from a computed value, not from a place
+        fields = [x for x in p2] + names + fields
+        lid = l2
+        depth += 1
+    return lid, fields
+
+
 def param_lids(fn):
     """{param name: (lid, type)} for simple binding parameters"""
     out = {}
